@@ -266,7 +266,9 @@ def blsOp (op : String) (args : List Tok) : Res :=
     match suiteOf s with
     | some s =>
       let m' := if s == .aug then pk ++ m else m
-      exc (coreVerifyBody H s pk m' sg s.dst) (fun r => showBool r.1 ++ " " ++ showTrace r.2)
+      match coreVerifyBody H s pk m' sg s.dst with
+      | .ok r => .ok (showBool r.1 ++ " " ++ showTrace r.2)
+      | .error e => if caught3 e then .ok "False " else .err e   -- the `try/except` of _CoreVerify: no pairing was evaluated
     | none => .bad "suite"
   | "Aggregate", [.blist sigs] => exc (aggregate sigs) showBytes
   | "AggregateVerify", [.str s, .blist pks, .blist ms, .bytes sg] =>
